@@ -204,17 +204,39 @@ func c04Main(args []string) {
 	})
 	r := &rng{*seedF}
 	if *tier == "quick" {
-		// 24 documents: the 6 smallest plus a seeded sample of the rest (fixtures and generated)
+		// the smallest document of every hand-written special profile (they exist because some defect needed
+		// exactly that kind of profile or data), the 4 smallest fixture documents, and a seeded sample of the rest
 		var pick []pd
-		pick = append(pick, docs[:6]...)
-		rest := docs[6:]
-		for len(pick) < 24 && len(rest) > 0 {
+		seenProf := map[int]bool{}
+		for _, d := range docs {
+			if c.Profiles[d.p].Class == "special" && !seenProf[d.p] && c.Profiles[d.p].Data[d.d].Size < 40000 {
+				seenProf[d.p] = true
+				pick = append(pick, d)
+			}
+		}
+		nfix := 0
+		var rest []pd
+		for _, d := range docs {
+			if c.Profiles[d.p].Class == "special" {
+				continue
+			}
+			if nfix < 4 {
+				pick = append(pick, d)
+				nfix++
+				continue
+			}
+			rest = append(rest, d)
+		}
+		for len(pick) < 36 && len(rest) > 0 {
 			i := r.intn(len(rest))
 			if c.Profiles[rest[i].p].Data[rest[i].d].Size < 40000 {
 				pick = append(pick, rest[i])
 			}
 			rest = append(rest[:i], rest[i+1:]...)
 		}
+		sort.SliceStable(pick, func(i, j int) bool {
+			return c.Profiles[pick[i].p].Data[pick[i].d].Size < c.Profiles[pick[j].p].Data[pick[j].d].Size
+		})
 		docs = pick
 	}
 	cliEmitted := 0
